@@ -44,7 +44,7 @@ def run_trace_job(job):
     cmd = [os.path.join(bindir, job["driver"]), "--gen", job["gen"], "--tier", job["tier"], "--seed", str(job["seed"]),
            "--shard", "%d/%d" % (job["shard"], job["nshards"]), "--out", trace, "--dump-progs", progs]
     rc, out, dt = run(cmd, timeout=job.get("driver_timeout", 1800))
-    res = dict(job=job, driver_rc=rc, driver_wall=dt, fails=[], events=0, monitors=[], cached=False, samples=[], crash=None)
+    res = dict(job=job, driver_rc=rc, driver_wall=dt, fails=[], drift=[], events=0, monitors=[], cached=False, samples=[], crash=None)
     if rc != 0:
         # a crash (abort, signal) of the code under test is a recorded outcome
         res["crash"] = dict(rc=rc, tail=out[-1500:])
@@ -72,7 +72,13 @@ def run_trace_job(job):
                 mon = dict(module=mod, generated=r["generated"], distinct=r["distinct"], accepted=r["accepted"],
                            wall=r["wall"], tool_error=r["tool_error"], rejected=r["rejected"])
                 res["monitors"].append(mon)
-                evs = None
+                for t in r["drift"]:
+                    # <<"DRIFT", name, line, <<p, i, op, ma>>, witness>>
+                    try:
+                        res["drift"].append(dict(name=t[1], line=t[2], p=t[3][0], i=t[3][1], op=t[3][2], ma=t[3][3],
+                                                 witness=t[4] if len(t) > 4 else None, gen=job["gen"], profile=job["profile"]))
+                    except Exception:
+                        pass
                 for t in r["fails"]:
                     # <<"PROPFAIL", prop, formula, line, <<p, i, op, ma>>, witness>>
                     try:
@@ -232,6 +238,14 @@ def check_property(pid, tier, seed):
             viol.setdefault(s, []).append(f)
     for kid, (k, fs) in sorted(knownhits.items()):
         print("KNOWN-FINDING: property=%s %s (%d occurrences; %s)" % (pid, k["what"], len(fs), kid))
+    drifts = [d for r in results_t for d in r.get("drift", [])]
+    if drifts:
+        import collections
+        cnt = collections.Counter((d["name"], d["op"]) for d in drifts)
+        for (nm, op), n in cnt.most_common(8):
+            d = next(x for x in drifts if x["name"] == nm and x["op"] == op)
+            print("DRIFT property=%s event=%s/%s model-step=%s op=%s occurrences=%d (code no longer follows ArenaCore.tla here; not a violation) witness=%s"
+                  % (pid, d["p"], d["i"], nm, op, n, json.dumps(d["witness"])[:200]))
     replay_paths = []
     for s, fs in sorted(viol.items()):
         f = fs[0]
@@ -269,6 +283,7 @@ def check_property(pid, tier, seed):
                                              monitors=[m["module"] for m in r["monitors"]], cached=r.get("cached", False)) for r in results_t],
                             extra=[{k: v for k, v in r.items() if k in ("name", "summary", "counts")} for r in extra],
                             known_findings_hit=sorted(knownhits.keys()),
+                            drift_events=len(drifts),
                             exhaustive=False),
               assumptions=plan.get("assumptions", []),
               wall_s=round(time.time() - t0, 2), violations=len(viol))
